@@ -186,7 +186,27 @@ def run_session(w, sc, mon):
     for k in range(1, 20):
         pats.append(("trunc%d" % k, M1[:k] + bytes(20 - k)))
         pats.append(("tail%d" % k, bytes(20 - k) + M1[20 - k:]))
-    for name, p in (pats if full else rnd.sample(pats, 2)):
+    if full:
+        # the same bit flipped in two different bytes, every pair of byte positions (differences that cancel in a folded compare)
+        for i in range(20):
+            for j in range(i + 1, 20):
+                bit = 1 << ((i * 7 + j) % 8)
+                x = bytearray(M1)
+                x[i] ^= bit
+                x[j] ^= bit
+                pats.append(("pair%d_%d" % (i, j), bytes(x)))
+    else:
+        i, j = rnd.sample(range(20), 2)
+        x = bytearray(M1)
+        x[i] ^= 0x10
+        x[j] ^= 0x10
+        pats.append(("pair", bytes(x)))
+        k4 = rnd.randrange(16)
+        x = bytearray(M1)
+        x[k4 % 4] ^= 0x04
+        x[16 + k4 % 4] ^= 0x04
+        pats.append(("mirrored_words", bytes(x)))
+    for name, p in (pats if full else rnd.sample(pats, 3)):
         server_decision("M1_pattern", name, A, p)
     # A perturbed, proof kept
     bits = range(256) if full else rnd.sample(range(256), 2)
@@ -217,7 +237,21 @@ def run_session(w, sc, mon):
     for k in range(1, 20):
         pats2.append(("trunc%d" % k, M2[:k] + bytes(20 - k)))
         pats2.append(("tail%d" % k, bytes(20 - k) + M2[20 - k:]))
-    for name, p in (pats2 if full else rnd.sample(pats2, 2)):
+    if full:
+        for i in range(20):
+            for j in range(i + 1, 20):
+                bit = 1 << ((i * 5 + j) % 8)
+                x = bytearray(M2)
+                x[i] ^= bit
+                x[j] ^= bit
+                pats2.append(("pair%d_%d" % (i, j), bytes(x)))
+    else:
+        i, j = rnd.sample(range(20), 2)
+        x = bytearray(M2)
+        x[i] ^= 0x02
+        x[j] ^= 0x02
+        pats2.append(("pair", bytes(x)))
+    for name, p in (pats2 if full else rnd.sample(pats2, 3)):
         client_decision("M2_pattern", name, p)
     client_decision("M2_correct", 0, M2)
     # the same account record, a fresh SrpProof (new b, new B): the recorded (A, M1) of the login above must be refused,
@@ -273,6 +307,11 @@ def worker(idx, nworkers, tier, seed, extra):
     n_full, n_samp = {"quick": (13, 1250), "thorough": (600, 40000)}[tier]
     w = Wsx()
     try:
+        first = {1: 2, 2: 3, 3: 257}.get(idx % 4)
+        if first:
+            # the first library use of this process is a client session under another announced modulus (not judged)
+            w.call("cli_new", into=9, u="First", p="session", g=7, N=M.to_le(first), B=M.to_le(1), salt=bytes(32))
+            mon.count("executors_started_with_another_modulus")
         for i in range(n_full):
             sc = make_scenario(rnd, True)
             run_session(w, sc, mon)
